@@ -131,6 +131,7 @@ type Scenario struct {
 	IterMode    int              `json:"iter_mode,omitempty"`
 	IterRot     int              `json:"iter_rot,omitempty"`
 	Observe     bool             `json:"observe"` // observer task at stable points
+	LoadOnly    int              `json:"load_only,omitempty"` // C16: load the files this many times instead of running the project
 	Rest        bool             `json:"rest,omitempty"` // build the REST server and the bundled client over the runner; ops with rest=true go through them
 	// injection-point sweep: make client Clients[SweepClient] op 0 runnable at scheduler step SweepStep
 	SweepStep int `json:"sweep_step,omitempty"`
